@@ -6,7 +6,8 @@ RULE = ("a real Node (virtual clock) with fetch_retry_initial_backoff 0/1/3 s, m
         "whose manifests expire 20 s .. 1 h after the start, receives 8..40 operations: assigned-fetch announcements (40% "
         "re-announce a fetch that is pending or in flight, by the same or another peer), chunk arrivals, a peer becoming "
         "unreachable (its session ends, so sends fail), ticks and clock advances (1 ms, just below / at the success interval "
-        "and the current back-off, beyond the manifest expiry). After every operation the REQUEST frames on the wire are read "
+        "and the current back-off, beyond the manifest expiry); 'unreachable-peer' sequences in which every send to the assigned peer "
+        "fails 5..11 times in a row (initial/maximum back-off 3/60, 3/5, 5/30, 1/7, 2/9, 7/100, no maximum). After every operation the REQUEST frames on the wire are read "
         "back and decoded, and the pending-fetch table (present, attempts, in flight, wait) and the per-peer counters are read "
         "through the friend class. Oracle (independent of the model): per peer, the fetches in flight and the node's counter "
         "never exceed the limit; the counter is zero when none of that peer's fetches is in flight; after a failed send the "
@@ -47,6 +48,18 @@ def generate(rng, tier):
     # but never answered outlive the attempt limit
     cases.append(mk((3, 60, 15, 5, 3), [3600] * 5, [(4, 1, 0), (0, 1, 1), (4, 1000, 0), (0, 1, 1), (4, 1000, 0), (0, 1, 2), (1, 1, 0), (3, 0, 0)], "reannounce-in-flight"))
     cases.append(mk((1, 4, 2, 2, 3), [3600] * 5, [(4, 1, 0), (0, 1, 1), (4, 2000, 0), (3, 0, 0), (4, 2000, 0), (3, 0, 0), (4, 2000, 0), (3, 0, 0), (4, 2000, 0), (3, 0, 0)], "unanswered-past-limit"))
+    # a peer that cannot be reached: every send fails, the delay has to follow the whole back-off ladder up to the maximum
+    for _ in range(n // 5):
+        ib, mb = rng.choice([(3, 60), (3, 5), (5, 30), (1, 7), (2, 9), (1, 0), (3, 0), (2, 1000), (7, 100)])
+        cfg = (ib, mb, rng.choice([2, 15]), rng.choice([0, 0, 12, 7]), rng.choice([0, 1, 3]))
+        p, c = rng.randrange(1, NP + 1), rng.randrange(1, NC + 1)
+        ops = [(2, p, 0), (4, 1, 0), (0, c, p)]
+        for k in range(1, rng.choice([6, 9, 12])):
+            ops.append((4, backoff(cfg, k) * 1000 - rng.choice([0, 0, 1]), 0))
+            ops.append((3, 0, 0))
+            if rng.random() < 0.3:
+                ops.append((3, 0, 0))
+        cases.append(mk(cfg, [3600 * 12] * NC, ops, "unreachable-peer"))
     for _ in range(n):
         cfg = (rng.choice([0, 1, 3]), rng.choice([0, 4, 60]), rng.choice([0, 2, 15]), rng.choice([0, 2, 3, 5]), rng.choice([0, 1, 2, 3]))
         ttls = [rng.choice([20, 60, 120, 3600, 3600]) for _ in range(NC)]
